@@ -28,6 +28,14 @@ CLASSES = {
 }
 
 
+def _plain(rnd) -> dict:
+    """A hint dltype has nothing to say about: a bare type, or an Annotated[...] whose metadata is not a dltype annotation."""
+    h = dict(H_PLAIN)
+    if rnd.random() < 0.3:
+        h["src"] = rnd.choice(["Annotated[int, 'meta']", "Annotated[int, 'meta', 3]", "typing.Any"])
+    return h
+
+
 class Ctx:
     def __init__(self, rnd: random.Random, provider_names: dict[str, int] | None = None) -> None:
         self.rnd = rnd
@@ -172,7 +180,7 @@ def _gen_case(rnd: random.Random, libs=("np",), with_provider: float = 0.25, wit
         name = f"p{i}"
         r = rnd.random()
         if r < plain:
-            params.append({"name": name, "hint": dict(H_PLAIN)})
+            params.append({"name": name, "hint": _plain(rnd)})
             args[name] = V_OTHER
             continue
         if r < plain + tuples:
@@ -180,7 +188,7 @@ def _gen_case(rnd: random.Random, libs=("np",), with_provider: float = 0.25, wit
             for _ in range(rnd.choice([1, 2, 2, 3])):
                 q = rnd.random()
                 if q < 0.25:
-                    elts.append(dict(H_PLAIN))
+                    elts.append(_plain(rnd))
                     vals.append(V_OTHER)
                 else:
                     h, v = gen_tensor_hint(c, list(libs))
@@ -208,7 +216,7 @@ def _gen_case(rnd: random.Random, libs=("np",), with_provider: float = 0.25, wit
             elts, vals = [], []
             for _ in range(rnd.choice([1, 2, 3])):
                 if rnd.random() < 0.25:
-                    elts.append(dict(H_PLAIN))
+                    elts.append(_plain(rnd))
                     vals.append(V_OTHER)
                 else:
                     h, v = gen_tensor_hint(c, list(libs))
